@@ -12,6 +12,7 @@ import Melda.Flatten
 import Melda.Merge
 import Melda.Diff
 import Melda.Lru
+import Melda.Replica
 namespace Melda
 
 /-- how a public call ended -/
@@ -377,6 +378,48 @@ def autoResolve (H : Bytes → Str) (src : Src) (st : DState) : Res DState :=
       | .err _ => .panic "cannot_automatically_resolve_array_descriptor_conflict"
       | .panic m => .panic m)
     | e => e) (.ok st)
+
+/-! ### `commit`: what is written, in which order
+
+  The code iterates two hash maps (staged objects, staged revisions per tree), so the order of the
+  objects inside the pack and of the change records inside the block is not determined. The model
+  takes both orders as parameters (`objOrder`, `chgOrder`: any permutation is a possible execution);
+  the driver instantiates them with the orders found in the bytes the implementation wrote and
+  compares the resulting bytes literally. -/
+
+/-- the pack `DataStorage::pack` writes for the staged objects in the given order -/
+def packOf (stageOrdered : List (Str × JObj)) : Bytes :=
+  packBytes (stageOrdered.map (fun p => (JVal.obj p.2).renderBytes))
+
+structure CommitOut where
+  /-- the writes, in the order they are issued -/
+  writes : List (Str × Bytes)
+  block : Block
+  packName : Option Str
+
+/-- the writes of a commit (after the automatic resolution step), for one choice of iteration orders -/
+def commitWrites (H : Bytes → Str) (st : DState) (info : Option JVal)
+    (objOrder : List (Str × JObj)) (chgOrder : List Change) : CommitOut :=
+  let packName : Option Str := if objOrder.isEmpty then none else some (H (packOf objOrder))
+  let parents := st.p.anchors
+  let proto : Block := { id := ⟨0, []⟩, parents := parents.foldl (fun acc b => insertSet BlockId.lt b acc) [],
+                         packs := match packName with | some k => [k] | none => [], changes := chgOrder, info := info }
+  let bytes := (proto.toJson).renderBytes
+  let id : BlockId := ⟨PState.nextIndex parents, H bytes⟩
+  let block := { proto with id := id }
+  { writes := (match packName with | some k => [(k ++ PACK_EXT, packOf objOrder)] | none => []) ++ [(id.key, bytes)],
+    block := block, packName := packName }
+
+/-- the replica after a successful commit -/
+def commitDone (st : DState) (out : CommitOut) (newObjects : List Str) : DState :=
+  { st with
+    p := PState.validateAll
+      { st.p with
+        deltas := PState.insertDelta out.block .applied st.p.deltas,
+        docs := st.p.docs.map (fun p => (p.1, p.2.commit)),
+        objects := st.p.objects ++ newObjects,
+        appliedPacks := match out.packName with | some k => st.p.appliedPacks ++ [k] | none => st.p.appliedPacks },
+    stage := [] }
 
 end DState
 end Melda
